@@ -52,7 +52,11 @@ func hammer(t *testing.T, name string, l logs.Loggers, extra func(i int)) {
 				case 2:
 					l.LogError(fmt.Sprintf("%s err %d/%d", name, p, i))
 				case 3:
-					_ = l.SetLogSource(fmt.Sprintf("src%d", p))
+					if i%2 == 0 {
+						_ = l.SetLogSource(fmt.Sprintf("src%d", p))
+					} else {
+						_ = l.SetLoggerSource(fmt.Sprintf("lsrc%d", p))
+					}
 					if extra != nil {
 						extra(p*100 + i)
 					}
